@@ -76,7 +76,7 @@ theorem slice_elementwise (e e' : Conv.Ty) (xs : TVs) (hne : e' ≠ e) :
 /-! ### the argument builder (interpreter model): spread calls -/
 section
 open Anko
-variable [FOps]
+variable [FOps] [Prov]
 
 /-- `f(xs...)` on a variadic function hands the list over as the variadic tail, unchanged. -/
 theorem spread_variadic_passes_list (lead : List RV) (s : St) (xs : List Val) (h : s.rv.v = .list xs) :
